@@ -779,6 +779,67 @@ func VerifC17SetGetDomainSearch(s1, s2, s3 int) {
 	verifReach("end")
 }
 
+// VerifC17SetGetDomainSearchEdited: the search list handed to the constructor is one that was read
+// from a packet and then edited (edit 0: a name appended, 1: the last name removed, 2: the first
+// name replaced, 3: a name appended and the first replaced); what is read back must be the edited
+// list. s1, s2: shapes of the names of the received list, s3: shape of the new name.
+func VerifC17SetGetDomainSearchEdited(s1, s2, s3, edit int) {
+	var names []string
+	for _, s := range []int{s1, s2} {
+		if s > 0 {
+			names = append(names, verifDNSName(s))
+		}
+	}
+	src := verifNewPacket()
+	src.UpdateOption(OptDomainSearch(&rfc1035label.Labels{Labels: names}))
+	rcv, err := FromBytes(src.ToBytes())
+	verifAssert(err == nil, "received")
+	if err != nil {
+		return
+	}
+	l := rcv.DomainSearch()
+	verifAssert(l != nil && len(l.Labels) == len(names), "received-list")
+	if l == nil || len(l.Labels) != len(names) {
+		return
+	}
+	fresh := verifDNSName(s3)
+	want := append([]string(nil), names...)
+	switch edit {
+	case 0:
+		l.Labels = append(l.Labels, fresh)
+		want = append(want, fresh)
+	case 1:
+		l.Labels = l.Labels[:len(l.Labels)-1]
+		want = want[:len(want)-1]
+	case 2:
+		l.Labels[0] = fresh
+		want[0] = fresh
+	default:
+		l.Labels = append(l.Labels, fresh)
+		l.Labels[0] = fresh
+		want = append(want, fresh)
+		want[0] = fresh
+	}
+	p := verifNewPacket()
+	p.UpdateOption(OptDomainSearch(l))
+	got := p.DomainSearch()
+	if len(want) == 0 {
+		verifAssert(got == nil || len(got.Labels) == 0, "no-names-read-back")
+		verifReach("end")
+		return
+	}
+	verifAssert(got != nil, "present")
+	if got != nil {
+		verifAssert(len(got.Labels) == len(want), "number-of-names-read-back")
+		if len(got.Labels) == len(want) {
+			for i := range want {
+				verifAssert(verifSameStr(got.Labels[i], want[i]), "name-read-back")
+			}
+		}
+	}
+	verifReach("end")
+}
+
 // VerifC17SetGetClientArch: k >= 1 symbolic architecture types.
 func VerifC17SetGetClientArch(k int) {
 	var archs []iana.Arch
